@@ -278,7 +278,7 @@ def run(pid, tier, seed, replay):
             for plan in plans:
                 if per == 1 and "2:1" in plan.get("fail", []) and n < 2:
                     continue
-                cap = (700 if quick else 20000) if (n, per) != (2, 1) else (2500 if quick else None)
+                cap = (300 if quick else 20000) if (n, per) != (2, 1) else (1200 if quick else None)
                 runs += explore_threads(pool, n, per, plan, 2 if quick else (3 if (n, per) == (2, 1) else 2), cap, rng)
             chk.cov_add("thread_schedules", len(runs))
             validate(chk, runs, n, per, "threads", "thread schedules", shards=4 if quick else 12)
@@ -286,7 +286,7 @@ def run(pid, tier, seed, replay):
         for (n, per, yields) in [(2, 1, 1), (3, 1, 1), (2, 2, 1)] + ([] if quick else [(3, 1, 2), (4, 1, 1)]):
             runs = []
             for plan in plans[:3] if quick else plans:
-                runs += explore_asyncio(pool, n, per, plan, yields, cap=600 if quick else 8000)
+                runs += explore_asyncio(pool, n, per, plan, yields, cap=300 if quick else 8000)
             chk.cov_add("asyncio_schedules", len(runs))
             pend = [r for r in runs if r.get("pending")]
             for r in pend[:3]:
@@ -296,7 +296,7 @@ def run(pid, tier, seed, replay):
         # 4. schedules generated by TLC from the specification, replayed on real threads
         guided = []
         for (n, per, fails) in [(2, 1, 0), (2, 1, 1), (2, 2, 0)]:
-            for script, failing in tlc_schedules(n, per, fails, 150 if quick else 1500, seed):
+            for script, failing in tlc_schedules(n, per, fails, 80 if quick else 1500, seed):
                 guided.append((n, per, {"fail": failing} if failing else {}, script))
         res = list(pool.map(_run_guided_job, guided, chunksize=16))
         bad = [r for r in res if "error" in r]
